@@ -88,6 +88,31 @@ def check(ctx: Ctx) -> str:
     for k, v in want.items():
         ctx.check(ft.get(k) == v, f"FILTERS[{k}]", "filters:FILTERS", f"entry {k}", f"FILTERS[{k!r}] is {ft.get(k)}, expected {v}", "src/jinja2/filters.py")
 
+    ctx.rule("R5", "optional-argument defaulting: a parameter whose default is None is replaced by its policy / computed default only under `param is None` - never by a truthiness test, because 0 and '' are legitimate explicit values")
+    n5 = 0
+    for mod in ("filters", "utils"):
+        m = repo.module(mod)
+        for fn in astq.all_funcdefs(m.tree):
+            a = fn.args
+            params = a.posonlyargs + a.args + a.kwonlyargs
+            defaults = dict(zip([p.arg for p in (a.posonlyargs + a.args)][len(a.posonlyargs + a.args) - len(a.defaults):], a.defaults))
+            defaults.update({p.arg: d for p, d in zip(a.kwonlyargs, a.kw_defaults) if d is not None})
+            none_params = {p for p, d in defaults.items() if isinstance(d, ast.Constant) and d.value is None}
+            for node in ast.walk(fn):
+                if not isinstance(node, ast.If):
+                    continue
+                assigned = {t_.id for s_ in node.body if isinstance(s_, ast.Assign) for t_ in s_.targets if isinstance(t_, ast.Name)}
+                for p in sorted(assigned & none_params):
+                    t_ = ast.unparse(node.test)
+                    if p not in t_:
+                        continue
+                    n5 += 1
+                    ok = t_ == f"{p} is None"
+                    ctx.check(ok, f"{mod}:{fn.name}:{p}", f"{mod}:{astq.qualname(fn)}", f"default for `{p}` applied under `{t_}`",
+                              f"{astq.qualname(fn)} replaces the optional argument `{p}` by its default under `{t_}`: an explicit falsy value (0, '') is overridden by the default, so e.g. leeway=0 is ignored and the result exceeds the requested bound",
+                              f"{m.rel}:{node.lineno}", detail={"function": astq.qualname(fn), "parameter": p, "test": t_})
+    ctx.floor("None-defaulted parameters", n5, 4)
+
     ctx.rule("R3", "truncate: the unchanged-return test is len(s) <= length + leeway (as a linear inequality), every cut of s ends at length - len(end), every truncating return appends end")
     tr = repo.func("filters:do_truncate")
     tests = [astq.linear_cmp(n_) for n_ in ast.walk(tr.node) if isinstance(n_, ast.Compare) and "len(s)" in ast.unparse(n_)]
